@@ -14,6 +14,8 @@ variable {K : Type} [Field K] [LinearOrder K] [IsStrictOrderedRing K]
   copysign mag sgn := if sgn < 0 then -|mag| else |mag|
   ulpsEq a b := decide (|a - b| ≤ ((mkRat 1 4503599627370496 : ℚ) : K))
 
+theorem fieldNum_sqrt (sq : K → K) (x : K) : @Num.sqrt K (fieldNum K sq) x = sq x := rfl
+
 /-- plain dot products / norms, free of any `Num` instance, used to state the lemmas -/
 def dot3 (a b : V3 K) : K := a.x * b.x + a.y * b.y + a.z * b.z
 def dot2 (a b : V2 K) : K := a.x * b.x + a.y * b.y
@@ -35,5 +37,208 @@ theorem le_of_sq_le_sq' {x y : K} (h : x ^ 2 ≤ y ^ 2) (hy : 0 ≤ y) : x ≤ y
 theorem abs_le_of_sq_le_sq' {x y : K} (h : x ^ 2 ≤ y ^ 2) (hy : 0 ≤ y) : |x| ≤ y := by
   apply le_of_sq_le_sq' _ hy
   rwa [sq_abs]
+
+
+/-! ## isometries -/
+section iso
+variable (sq : K → K)
+
+/-- `(R v)·w = v·(Rᵀ w)` for nalgebra's quaternion formula — holds for **every** quaternion, unit or not -/
+theorem rot_adj3 (m : Iso3 K) (v w : V3 K) :
+    letI := fieldNum K sq
+    (m.rot v).dot w = v.dot (m.invRot w) := by
+  simp only [Iso3.rot, Iso3.invRot, Iso3.rotQ, Iso3.qv, V3.add, V3.smul, V3.cross, V3.dot, V3.neg, fieldNum_two]
+  ring
+
+theorem rot_invRot3 (m : Iso3 K) (v : V3 K)
+    (hq : m.qi * m.qi + m.qj * m.qj + m.qk * m.qk + m.qw * m.qw = 1) :
+    letI := fieldNum K sq
+    m.rot (m.invRot v) = v := by
+  obtain ⟨x, y, z⟩ := v
+  simp only [Iso3.rot, Iso3.invRot, Iso3.rotQ, Iso3.qv, V3.add, V3.smul, V3.cross, V3.neg, fieldNum_two, V3.mk.injEq]
+  refine ⟨?_, ?_, ?_⟩
+  · linear_combination (-4 * (m.qi * (m.qi * x + m.qj * y + m.qk * z) - (m.qi * m.qi + m.qj * m.qj + m.qk * m.qk) * x)) * hq
+  · linear_combination (-4 * (m.qj * (m.qi * x + m.qj * y + m.qk * z) - (m.qi * m.qi + m.qj * m.qj + m.qk * m.qk) * y)) * hq
+  · linear_combination (-4 * (m.qk * (m.qi * x + m.qj * y + m.qk * z) - (m.qi * m.qi + m.qj * m.qj + m.qk * m.qk) * z)) * hq
+
+theorem invRot_rot3 (m : Iso3 K) (v : V3 K)
+    (hq : m.qi * m.qi + m.qj * m.qj + m.qk * m.qk + m.qw * m.qw = 1) :
+    letI := fieldNum K sq
+    m.invRot (m.rot v) = v := by
+  obtain ⟨x, y, z⟩ := v
+  simp only [Iso3.rot, Iso3.invRot, Iso3.rotQ, Iso3.qv, V3.add, V3.smul, V3.cross, V3.neg, fieldNum_two, V3.mk.injEq]
+  refine ⟨?_, ?_, ?_⟩
+  · linear_combination (-4 * (m.qi * (m.qi * x + m.qj * y + m.qk * z) - (m.qi * m.qi + m.qj * m.qj + m.qk * m.qk) * x)) * hq
+  · linear_combination (-4 * (m.qj * (m.qi * x + m.qj * y + m.qk * z) - (m.qi * m.qi + m.qj * m.qj + m.qk * m.qk) * y)) * hq
+  · linear_combination (-4 * (m.qk * (m.qi * x + m.qj * y + m.qk * z) - (m.qi * m.qi + m.qj * m.qj + m.qk * m.qk) * z)) * hq
+
+theorem act_invAct3 (m : Iso3 K) (p : V3 K)
+    (hq : m.qi * m.qi + m.qj * m.qj + m.qk * m.qk + m.qw * m.qw = 1) :
+    letI := fieldNum K sq
+    m.act (m.invAct p) = p := by
+  have h := rot_invRot3 sq m (@V3.sub K (fieldNum K sq) p m.t) hq
+  simp only [Iso3.act, Iso3.invAct, h]
+  obtain ⟨x, y, z⟩ := p
+  simp only [V3.add, V3.sub, V3.mk.injEq]
+  refine ⟨?_, ?_, ?_⟩ <;> ring
+
+theorem invAct_act3 (m : Iso3 K) (p : V3 K)
+    (hq : m.qi * m.qi + m.qj * m.qj + m.qk * m.qk + m.qw * m.qw = 1) :
+    letI := fieldNum K sq
+    m.invAct (m.act p) = p := by
+  have h := invRot_rot3 sq m p hq
+  have e : ∀ r t : V3 K, @V3.sub K (fieldNum K sq) (@V3.add K (fieldNum K sq) r t) t = r := by
+    rintro ⟨a, b, c⟩ ⟨d, e, f⟩
+    simp only [V3.add, V3.sub, V3.mk.injEq]
+    refine ⟨?_, ?_, ?_⟩ <;> ring
+  simp only [Iso3.act, Iso3.invAct, e, h]
+
+theorem rot_adj2 (m : Iso2 K) (v w : V2 K) :
+    letI := fieldNum K sq
+    (m.rot v).dot w = v.dot (m.invRot w) := by
+  simp only [Iso2.rot, Iso2.invRot, V2.dot]
+  ring
+
+theorem rot_invRot2 (m : Iso2 K) (v : V2 K) (hq : m.re * m.re + m.im * m.im = 1) :
+    letI := fieldNum K sq
+    m.rot (m.invRot v) = v := by
+  obtain ⟨x, y⟩ := v
+  simp only [Iso2.rot, Iso2.invRot, V2.mk.injEq]
+  refine ⟨?_, ?_⟩
+  · linear_combination x * hq
+  · linear_combination y * hq
+
+theorem invRot_rot2 (m : Iso2 K) (v : V2 K) (hq : m.re * m.re + m.im * m.im = 1) :
+    letI := fieldNum K sq
+    m.invRot (m.rot v) = v := by
+  obtain ⟨x, y⟩ := v
+  simp only [Iso2.rot, Iso2.invRot, V2.mk.injEq]
+  refine ⟨?_, ?_⟩
+  · linear_combination x * hq
+  · linear_combination y * hq
+
+theorem act_invAct2 (m : Iso2 K) (p : V2 K) (hq : m.re * m.re + m.im * m.im = 1) :
+    letI := fieldNum K sq
+    m.act (m.invAct p) = p := by
+  have h := rot_invRot2 sq m (@V2.sub K (fieldNum K sq) p m.t) hq
+  simp only [Iso2.act, Iso2.invAct, h]
+  obtain ⟨x, y⟩ := p
+  simp only [V2.add, V2.sub, V2.mk.injEq]
+  refine ⟨?_, ?_⟩ <;> ring
+
+end iso
+
+/-- separation along a direction: if `|d| = L > 0` and `d·e ≥ L·m ≥ 0` then `|e| ≥ m` (squared form) -/
+theorem sep_along3 (d e : V3 K) (L m : K) (hL : 0 < L) (hdd : dot3 d d = L * L) (hm : 0 ≤ m)
+    (h : L * m ≤ dot3 d e) : m * m ≤ dot3 e e := by
+  have hcs := cs3 d e
+  rw [hdd] at hcs
+  have h2 : (L * m) ^ 2 ≤ (dot3 d e) ^ 2 := pow_le_pow_left₀ (mul_nonneg hL.le hm) h 2
+  have h3 : L * L * (m * m) ≤ L * L * dot3 e e := by nlinarith
+  exact le_of_mul_le_mul_left h3 (mul_pos hL hL)
+
+theorem sep_along2 (d e : V2 K) (L m : K) (hL : 0 < L) (hdd : dot2 d d = L * L) (hm : 0 ≤ m)
+    (h : L * m ≤ dot2 d e) : m * m ≤ dot2 e e := by
+  have hcs := cs2 d e
+  rw [hdd] at hcs
+  have h2 : (L * m) ^ 2 ≤ (dot2 d e) ^ 2 := pow_le_pow_left₀ (mul_nonneg hL.le hm) h 2
+  have h3 : L * L * (m * m) ≤ L * L * dot2 e e := by nlinarith
+  exact le_of_mul_le_mul_left h3 (mul_pos hL hL)
+
+/-- `d·a ≤ L·r` when `|d| = L`, `|a| ≤ r` (Cauchy–Schwarz without square roots of the operands) -/
+theorem dot_le3 (d a : V3 K) (L r : K) (hL : 0 ≤ L) (hr : 0 ≤ r) (hdd : dot3 d d = L * L)
+    (ha : dot3 a a ≤ r * r) : dot3 d a ≤ L * r := by
+  apply le_of_sq_le_sq' _ (mul_nonneg hL hr)
+  have := cs3 d a
+  rw [hdd] at this
+  nlinarith [mul_nonneg hL hL]
+
+theorem dot_le2 (d a : V2 K) (L r : K) (hL : 0 ≤ L) (hr : 0 ≤ r) (hdd : dot2 d d = L * L)
+    (ha : dot2 a a ≤ r * r) : dot2 d a ≤ L * r := by
+  apply le_of_sq_le_sq' _ (mul_nonneg hL hr)
+  have := cs2 d a
+  rw [hdd] at this
+  nlinarith [mul_nonneg hL hL]
+
+/-- the ball of radius `r` centred at `c` -/
+def BallAt (r : K) (c : V3 K) (p : V3 K) : Prop :=
+  (p.x - c.x) * (p.x - c.x) + (p.y - c.y) * (p.y - c.y) + (p.z - c.z) * (p.z - c.z) ≤ r * r
+
+/-- two balls whose centres are `S = |c|` apart with `r1 + r2 < S`: every pair of points is at least `S - r1 - r2` apart -/
+theorem ball_sep_core (r1 r2 S : K) (c : V3 K) (hr1 : 0 ≤ r1) (hr2 : 0 ≤ r2) (hS0 : 0 ≤ S)
+    (hSS : S * S = c.x * c.x + c.y * c.y + c.z * c.z) (hgt : r1 + r2 < S) (a b : V3 K)
+    (ha : BallAt r1 ⟨0, 0, 0⟩ a) (hb : BallAt r2 c b) :
+    (S - (r1 + r2)) * (S - (r1 + r2)) ≤
+      (b.x - a.x) * (b.x - a.x) + (b.y - a.y) * (b.y - a.y) + (b.z - a.z) * (b.z - a.z) := by
+  simp only [BallAt] at ha hb
+  have hSpos : 0 < S := lt_of_le_of_lt (add_nonneg hr1 hr2) hgt
+  have h1 := dot_le3 c a S r1 hS0 hr1 (by simp only [dot3]; linarith) (by simp only [dot3]; nlinarith)
+  have h2 := dot_le3 c ⟨c.x - b.x, c.y - b.y, c.z - b.z⟩ S r2 hS0 hr2 (by simp only [dot3]; linarith)
+    (by simp only [dot3]; nlinarith)
+  have h3 := sep_along3 c ⟨b.x - a.x, b.y - a.y, b.z - a.z⟩ S (S - (r1 + r2)) hSpos
+    (by simp only [dot3]; linarith) (by linarith) (by simp only [dot3] at *; nlinarith)
+  simp only [dot3] at h3
+  linarith
+
+/-- overlapping balls (`|c|² ≤ (r1+r2)²`) share a point -/
+theorem ball_overlap_core (r1 r2 : K) (c : V3 K) (hr1 : 0 ≤ r1) (hr2 : 0 ≤ r2)
+    (h : c.x * c.x + c.y * c.y + c.z * c.z ≤ (r1 + r2) * (r1 + r2)) :
+    ∃ p, BallAt r1 ⟨0, 0, 0⟩ p ∧ BallAt r2 c p := by
+  rcases eq_or_lt_of_le (add_nonneg hr1 hr2) with h0 | hpos
+  · refine ⟨⟨0, 0, 0⟩, ?_, ?_⟩ <;> simp only [BallAt]
+    · nlinarith
+    · rw [← h0] at h; nlinarith [mul_self_nonneg r2]
+  · set k := r1 / (r1 + r2) with hk
+    have hk1 : k * (r1 + r2) = r1 := div_mul_cancel₀ _ (ne_of_gt hpos)
+    have hk0 : 0 ≤ k := div_nonneg hr1 hpos.le
+    have hk2 : (1 - k) * (r1 + r2) = r2 := by linarith
+    have hk3 : 0 ≤ 1 - k := by
+      have : 0 ≤ (1 - k) * (r1 + r2) := by rw [hk2]; exact hr2
+      exact nonneg_of_mul_nonneg_left this hpos
+    refine ⟨⟨c.x * k, c.y * k, c.z * k⟩, ?_, ?_⟩ <;> simp only [BallAt]
+    · have : k * k * (c.x * c.x + c.y * c.y + c.z * c.z) ≤ k * k * ((r1 + r2) * (r1 + r2)) :=
+        mul_le_mul_of_nonneg_left h (mul_nonneg hk0 hk0)
+      nlinarith
+    · have : (1 - k) * (1 - k) * (c.x * c.x + c.y * c.y + c.z * c.z) ≤ (1 - k) * (1 - k) * ((r1 + r2) * (r1 + r2)) :=
+        mul_le_mul_of_nonneg_left h (mul_nonneg hk3 hk3)
+      nlinarith
+
+/-- separated balls: the points `c·r1/S` and `c·(1 - r2/S)` realise the distance `S - r1 - r2` -/
+theorem ball_attain_core (r1 r2 S : K) (c : V3 K) (hSpos : 0 < S)
+    (hSS : S * S = c.x * c.x + c.y * c.y + c.z * c.z) :
+    let a : V3 K := ⟨c.x / S * r1, c.y / S * r1, c.z / S * r1⟩
+    let b : V3 K := ⟨c.x - c.x / S * r2, c.y - c.y / S * r2, c.z - c.z / S * r2⟩
+    BallAt r1 ⟨0, 0, 0⟩ a ∧ BallAt r2 c b ∧
+      (b.x - a.x) * (b.x - a.x) + (b.y - a.y) * (b.y - a.y) + (b.z - a.z) * (b.z - a.z)
+        = (S - (r1 + r2)) * (S - (r1 + r2)) := by
+  have hne : S ≠ 0 := ne_of_gt hSpos
+  have hu : c.x / S * (c.x / S) + c.y / S * (c.y / S) + c.z / S * (c.z / S) = 1 := by
+    field_simp; linarith
+  have hx : c.x = c.x / S * S := by field_simp
+  have hy : c.y = c.y / S * S := by field_simp
+  have hz : c.z = c.z / S * S := by field_simp
+  generalize c.x / S = ux at *; generalize c.y / S = uy at *; generalize c.z / S = uz at *
+  refine ⟨?_, ?_, ?_⟩
+  · simp only [BallAt]; nlinarith
+  · simp only [BallAt]; nlinarith
+  · simp only []; rw [hx, hy, hz]; nlinarith
+
+section iso2
+variable (sq : K → K)
+theorem rot_smul3 (m : Iso3 K) (v : V3 K) (k : K) :
+    letI := fieldNum K sq
+    m.rot (v.smul k) = (m.rot v).smul k := by
+  simp only [Iso3.rot, Iso3.rotQ, Iso3.qv, V3.add, V3.smul, V3.cross, fieldNum_two, V3.mk.injEq]
+  refine ⟨?_, ?_, ?_⟩ <;> ring
+
+theorem rot_normSq3 (m : Iso3 K) (v : V3 K)
+    (hq : m.qi * m.qi + m.qj * m.qj + m.qk * m.qk + m.qw * m.qw = 1) :
+    letI := fieldNum K sq
+    (m.rot v).normSq = v.normSq := by
+  have h1 := rot_adj3 sq m v (@Iso3.rot K (fieldNum K sq) m v)
+  have h2 := invRot_rot3 sq m v hq
+  simp only [V3.normSq]
+  rw [h1, h2]
+end iso2
 
 end C01
